@@ -65,7 +65,7 @@ def gen_scenarios(prop, tier, seed):
             sc = loop_base(rnd, f"z{j}", action=rnd.choice(["bench", "test"]))
             sc["options"] = {"sample_count": rnd.randint(1, 3), "sample_size": rnd.randint(1, 2), "max_time_ns": 0}
             scs.append(sc)
-    n_rand = {"C03": 120, "C04": 600, "C19": 160}[prop] * (5 if big else 1)
+    n_rand = {"C03": 300, "C04": 1500, "C19": 400}[prop] * (8 if big else 1)
     for j in range(n_rand):
         sc = loop_base(rnd, f"t{j}", action="bench" if rnd.random() < 0.9 else "test")
         o = {"sample_count": rnd.choice([0, 1, 2, 3, 5, 8])}
